@@ -2,7 +2,9 @@
    Part 1: the deadline-aware queue (common/sync.go), model Model/DChan.v.
    Part 2: Client / Server lifecycle machines (transport/client.go, server.go), model Model/Lifecycle.v.
    All theorems quantify over every schedule (list of actors), any number of threads and any
-   per-thread programs.  cfg `fixed` = code after the fix: commits, `orig` = code as found. *)
+   per-thread programs.  cfg `fixed` = code after the three fix: commits, `prev` = after the first two
+   (Close still takes d.m first), `cand` = the new Close without the barrier in Recv (a refuted
+   candidate repair), `orig` = code as found. *)
 From Hop Require Import Base DChan DChanProofs.
 Local Open Scope nat_scope.
 
@@ -32,12 +34,13 @@ Proof.
 Qed.
 Print Assumptions c17_recv_eof_before_data_refuted.
 
-(* fixed code: once any Recv has returned io.EOF the queue is closed and empty in every later
-   state, and everything ever sent has been delivered *)
+(* fixed code (eof_safe: the re-poll, and with the new Close also the barrier in Recv; `fixed` and
+   `prev` both qualify): once any Recv has returned io.EOF the queue is closed and empty in every
+   later state, and everything ever sent has been delivered *)
 Theorem c17_data_before_eof : forall c size progs x,
   wf_progs progs = true -> reachable c size progs x ->
   forall i t, nth_error (ths x) i = Some t ->
-    (fix_repoll c = true -> In (KRecv, RErr eEOF) (rets t) ->
+    (eof_safe c = true -> In (KRecv, RErr eEOF) (rets t) ->
        closed (shd x) = true /\ buf (shd x) = [] /\ sent (shd x) = map snd (taken (shd x))) /\
     (* and a Recv never reports success without an item *)
     (forall e, In (KRecv, RErr e) (rets t) -> e <> 0%N).
@@ -51,9 +54,25 @@ Print Assumptions c17_data_before_eof.
 (* the regression schedule on the fixed model: the same interleaving now delivers the item *)
 Example c17_data_before_eof_regression :
   exists x, run fixed (init 4 [[ORecv]; [OSend 7; OClose]])
-      [T 0; T 1; T 1; T 1; T 1; T 1; T 1; T 1; T 1; T 1; T 0; T 0] = Some x /\
-    map rets (ths x) = [[(KRecv, RItem 7)]; [(KSend, RErr eNil); (KClose, RErr eNil)]].
-Proof. eexists. split; vm_compute; reflexivity. Qed.
+      [T 0; T 1; T 1; T 1; T 1; T 1; T 1; T 1; T 1; T 0; T 0; T 0] = Some x /\
+    map rets (ths x) = [[(KRecv, RItem 7)]; [(KSend, RErr eNil); (KClose, RErr eNil)]] /\
+    eof_safe fixed = true /\ eof_safe prev = true /\ eof_safe cand = false.
+Proof. eexists. split; [vm_compute; reflexivity|]. vm_compute. auto. Qed.
+
+(* the candidate repair "Close publishes and cancels first, then waits for d.m" ALONE is wrong: a
+   Send in flight (past its `closed` check, parked before its select) enqueues after a Recv has
+   seen `closed`, found the queue empty and reported io.EOF; the next Recv returns data after
+   end-of-stream.  (With the barrier the same schedule parks the Recv behind the Send: see
+   c17_close_releases_blocked_send_instance2.) *)
+Theorem c17_close_candidate_without_barrier_refuted :
+  exists l x, run cand (init 1 [[OSend 7]; [OClose]; [ORecv; ORecv]]) l = Some x /\
+    (exists t, nth_error (ths x) 2 = Some t /\ rets t = [(KRecv, RErr eEOF); (KRecv, RItem 7)]) /\
+    (exists t, nth_error (ths x) 0 = Some t /\ rets t = [(KSend, RErr eNil)]).
+Proof.
+  exists [T 0; T 0; T 0; T 0; T 1; T 2; T 2; T 2; T 0; T 2].
+  eexists. split; [vm_compute; reflexivity|]. simpl. split; eexists; split; reflexivity.
+Qed.
+Print Assumptions c17_close_candidate_without_barrier_refuted.
 
 (* ------------------------------------------------------------------ close *)
 (* exactly one Close call reports nil (and only when the queue really is closed), every other EOF *)
@@ -78,15 +97,15 @@ Proof.
 Qed.
 Print Assumptions c17_lost_wakeup_after_close_refuted.
 
-(* fixed code: after `closed` is set no wake-up is lost — every unfinished thread can step, or a
-   thread that is never blocked (the mutex holder, or a Close/SetDeadline about to cancel) can *)
+(* fixed code: after `closed` is set no wake-up is lost — every unfinished thread can step, or the
+   mutex holder can, or a thread that is never blocked (a Close/SetDeadline about to cancel) can *)
 Theorem c17_no_stuck_after_close : forall c size progs x,
   fix_recheck c = true -> wf_progs progs = true -> reachable c size progs x ->
   closed (shd x) = true ->
   forall i t, nth_error (ths x) i = Some t -> unfinished t = true ->
     enabled c x (Th i false) = true \/
     exists j tj, j <> i /\ nth_error (ths x) j = Some tj /\
-                 never_blocks (tpc tj) = true /\ (lock_pc (tpc tj) || helper_pc (tpc tj) = true)%bool /\
+                 (lock_pc (tpc tj) || helper_pc (tpc tj) = true)%bool /\
                  enabled c x (Th j false) = true.
 Proof. exact no_stuck_after_close. Qed.
 Print Assumptions c17_no_stuck_after_close.
@@ -113,24 +132,71 @@ Print Assumptions c17_close_releases_everyone.
    select that is released (same race as the refutation above, now with the re-check) *)
 Example c17_no_stuck_instance :
   exists x, run fixed (init 4 [[ORecv]; [OSetDl DZero]; [OClose]])
-      [T 0; T 0; T 1; T 2; T 2; T 2; T 2; T 1; T 0; T 0] = Some x /\
+      [T 0; T 0; T 1; T 2; T 2; T 2; T 1; T 0; T 0] = Some x /\
     closed (shd x) = true /\ map tpc (ths x) = [R_select 1; D_recheck; Idle] /\
     enabled fixed x (T 0) = false /\ enabled fixed x (T 1) = true /\ wf_progs [[ORecv]; [OSetDl DZero]; [OClose]] = true.
 Proof. eexists. split; [vm_compute; reflexivity|]. vm_compute. auto 10. Qed.
 
-(* what does NOT hold (open finding C17:close-behind-blocked-send): Send keeps the queue mutex
-   while blocked on a full queue, Close needs that mutex before it can set `closed`, so Close does
-   not release such a Send — both calls hang until a receiver or a deadline intervenes.  Holds for
-   the fixed code too (design-level; see docs/C17.md). *)
-Theorem c17_close_releases_blocked_send_refuted :
-  exists l x, run fixed (init 1 [[OSend 1; OSend 2]; [OClose]]) l = Some x /\
-    terminal fixed x = true /\ all_finished x = false /\ closed (shd x) = false /\
+(* code before the third fix (`prev`; finding C17:close-behind-blocked-send, now fixed): Send keeps
+   the queue mutex while blocked on a full queue, Close needed that mutex before it could set
+   `closed`, so Close did not release such a Send — both calls hung until a receiver or a deadline
+   intervened. *)
+Theorem c17_close_releases_blocked_send_original_refuted :
+  exists l x, run prev (init 1 [[OSend 1; OSend 2]; [OClose]]) l = Some x /\
+    terminal prev x = true /\ all_finished x = false /\ closed (shd x) = false /\
     map tpc (ths x) = [S_select 2 0; Idle] /\ map prog (ths x) = [[]; [OClose]].
 Proof.
   exists [T 0; T 0; T 0; T 0; T 0; T 0; T 0; T 0; T 0].
   eexists. split; [vm_compute; reflexivity|]. vm_compute. auto 10.
 Qed.
-Print Assumptions c17_close_releases_blocked_send_refuted.
+Print Assumptions c17_close_releases_blocked_send_original_refuted.
+
+(* fixed code, every schedule: a Close call is never blocked before it has published `closed` and
+   cancelled the deadline channel (it takes d.m only afterwards); once `closed` is published every
+   Send parked in its blocking select — it holds d.m, the queue may be full — can step, or a
+   never-blocked thread is about to cancel its channel; what it then reports is a non-nil error.
+   With c17_no_stuck_after_close / c17_close_releases_everyone (closed + nothing can move => every
+   call has returned, Close's own wait for d.m included) and c17_steps_bounded this is "every call
+   returns, blocked calls are released by close". *)
+Theorem c17_close_releases_blocked_send : forall c size progs x,
+  fix_close c = true -> fix_recheck c = true -> wf_progs progs = true -> reachable c size progs x ->
+  (forall i t, nth_error (ths x) i = Some t ->
+     (tpc t = Idle /\ exists r, prog t = OClose :: r) \/ tpc t = C2_cancel ->
+     enabled c x (Th i false) = true) /\
+  (closed (shd x) = true -> forall i t v g, nth_error (ths x) i = Some t -> tpc t = S_select v g ->
+     enabled c x (Th i false) = true \/
+     exists k tk, nth_error (ths x) k = Some tk /\ helper_pc (tpc tk) = true /\ enabled c x (Th k false) = true) /\
+  (forall i t, nth_error (ths x) i = Some t -> tpc t = S_err -> derr (shd x) <> 0%N).
+Proof. exact close_releases_blocked_send. Qed.
+Print Assumptions c17_close_releases_blocked_send.
+
+(* non-vacuity: the witness schedule of the refutation on the fixed code — the second Send is
+   parked on the full queue holding d.m, Close can step; after Close's two first actions the Send
+   is released with io.EOF, Close returns nil, the first item is still queued *)
+Example c17_close_releases_blocked_send_instance :
+  exists x1 x2,
+    run fixed (init 1 [[OSend 1; OSend 2]; [OClose]]) [T 0; T 0; T 0; T 0; T 0; T 0; T 0; T 0; T 0] = Some x1 /\
+    map tpc (ths x1) = [S_select 2 0; Idle] /\ enabled fixed x1 (T 0) = false /\ enabled fixed x1 (T 1) = true /\
+    run fixed x1 [T 1; T 1; T 0; T 0; T 1] = Some x2 /\
+    map rets (ths x2) = [[(KSend, RErr eNil); (KSend, RErr eEOF)]; [(KClose, RErr eNil)]] /\
+    buf (shd x2) = [1%N] /\ all_finished x2 = true /\ wf_progs [[OSend 1; OSend 2]; [OClose]] = true.
+Proof. eexists. eexists. split; [vm_compute; reflexivity|]. vm_compute. auto 10. Qed.
+(* the schedule that refutes the candidate, on the fixed code: the Recv that saw `closed` waits at
+   the barrier behind the Send in flight (and is not enabled), the Send and the Close are *)
+Example c17_close_releases_blocked_send_instance2 :
+  exists x, run fixed (init 1 [[OSend 7]; [OClose]; [ORecv; ORecv]]) [T 0; T 0; T 0; T 0; T 1; T 2; T 2] = Some x /\
+    map tpc (ths x) = [S_select 7 0; C2_cancel; R_barrier] /\
+    enabled fixed x (T 2) = false /\ enabled fixed x (T 0) = true /\ enabled fixed x (T 1) = true.
+Proof. eexists. split; [vm_compute; reflexivity|]. vm_compute. auto. Qed.
+
+(* nothing is enqueued after Close has returned nil (both versions of Close): no Send is past its
+   `closed` check any more, and no later step changes the sequence of items ever put on the queue *)
+Theorem c17_no_enqueue_after_close : forall c size progs x,
+  wf_progs progs = true -> reachable c size progs x -> 1 <= sumf nclose (ths x) ->
+  closed (shd x) = true /\ cnt sendstage (ths x) = 0 /\
+  forall a x', step c x a = Some x' -> sent (shd x') = sent (shd x) /\ 1 <= sumf nclose (ths x').
+Proof. exact no_enqueue_after_close. Qed.
+Print Assumptions c17_no_enqueue_after_close.
 
 (* ------------------------------------------------------------------ deadlines *)
 (* once the deadline channel is closed (expiry or Cancel) every caller parked in a blocking select
